@@ -36,6 +36,8 @@ func c03Alphabet() []uint32 {
 		prog.Beq(1, 2, 8), prog.Jal(0, -8), prog.Jalr(0, 20, 0), prog.Jal(21, 4), prog.Csrrw(22, 1, 0xc00),
 		// one register used as address (64-bit read) AND as data (32-bit read) of one instruction
 		prog.ScW(19, 5, 5), prog.R(1<<2, 5, 5, 2, 0, 0x2f), /* amoswap.w x0,x5,(x5) */
+		// x0 as the stored value (the front end models it as a 1-byte zero whatever the access width)
+		prog.Sd(0, 5, 0), prog.Sw(0, 5, 4), prog.R(1<<2, 0, 5, 2, 23, 0x2f), /* amoswap.w x23,x0,(x5) */
 		// destination = source / base register
 		prog.Add(1, 1, 1), prog.Ld(5, 5, 0), prog.Sd(5, 5, 0), prog.Jalr(20, 20, 0), prog.AmoaddW(5, 5, 5),
 	}
@@ -133,7 +135,7 @@ func c03Enumerate(r *eng.Run, f func(c c03Case)) {
 func init() {
 	checks["C03"] = eng.Check{
 		Hist: true,
-		Rule: "every RV64IMA program of <=3 (thorough 4) instructions over a 33-word alphabet built to collide (three writers of x1, negative immediates, mul/div, sd/sw/sh/sb to overlapping offsets of one base, loads inside one store / across two stores / across a store and never-written memory / inside the image / across the image start, addw (32-bit register read) followed by a 64-bit reader, amoadd.w, lr.w, sc.w, sc.w/amoswap.w using ONE register as address and data, add/ld/sd/jalr/amoadd.w whose destination is their own source or base register, beq forward, jal backward, jalr to a register, pseudo-jump jal +4, csrrw) followed by 4 nops, through the real pipeline (elf block store -> parser -> deps.NewCode -> emulator with Overlay(Bytes(image), Sparse)); run for <=8 steps from 4 initial states (small values; full 64-bit values with an indirect jump to a mid-instruction address; pre-loaded registers/memory with a jump outside the code; data area above 2^32) supplied by the state provider. After every step pc, every register the emulator knows, every written or supplied memory byte and the step report (register/memory reads and writes with values, as sets) are compared with the reference interpreter; Step must fail exactly when pc is not an instruction start. states = program x initial state; transitions = steps executed. Non-trivial = run of >=3 steps.",
+		Rule: "every RV64IMA program of <=3 (thorough 4) instructions over a 36-word alphabet built to collide (three writers of x1, negative immediates, mul/div, sd/sw/sh/sb to overlapping offsets of one base, loads inside one store / across two stores / across a store and never-written memory / inside the image / across the image start, addw (32-bit register read) followed by a 64-bit reader, amoadd.w, lr.w, sc.w, sc.w/amoswap.w using ONE register as address and data, sd/sw/amoswap.w storing x0, add/ld/sd/jalr/amoadd.w whose destination is their own source or base register, beq forward, jal backward, jalr to a register, pseudo-jump jal +4, csrrw) followed by 4 nops, through the real pipeline (elf block store -> parser -> deps.NewCode -> emulator with Overlay(Bytes(image), Sparse)); run for <=8 steps from 4 initial states (small values; full 64-bit values with an indirect jump to a mid-instruction address; pre-loaded registers/memory with a jump outside the code; data area above 2^32) supplied by the state provider. After every step pc, every register the emulator knows, every written or supplied memory byte and the step report (register/memory reads and writes with values, as sets) are compared with the reference interpreter; Step must fail exactly when pc is not an instruction start. states = program x initial state; transitions = steps executed. Non-trivial = run of >=3 steps.",
 		Assumptions: []string{
 			"programs storing into their own image are skipped (property excludes self-modification)",
 			"the step report is compared as sets; a register read at several widths may be reported at any of them",
